@@ -250,6 +250,45 @@ SOpIntoIter(ts, n, end) == NoV(OpConsumeCursor(ts, "into_keys", n, end))
 SOpExtend(ts, cap, items) == NoV(OpExtend(ts, cap, items))
 SOpFromIter(cap, items) == NoV(OpFromIter(cap, items))
 
+\* ---------------------------------------------------------------- clone --
+\* clone.rs: every live slot is cloned, in slot order, into a fresh container of the
+\* same capacity: one clone per key object and per value object (tags 20 + source tag)
+CloneOf(ts) ==
+  [i \in 1..Len(ts) |-> [ts[i] EXCEPT !.kt = 20 + ts[i].kt, !.vt = IF ts[i].vt = 0 THEN 0 ELSE 20 + ts[i].vt]]
+
+\* the small catalogue of follow-up operations used to show that the copies are independent
+ApplySub(ts, cap, op) ==
+  CASE op.name = "none"     -> Res(<<"unit">>, ts, {}, {})
+    [] op.name = "insert"   -> OpInsert(ts, cap, op.k, op.v)
+    [] op.name = "remove"   -> OpRemove(ts, op.c)
+    [] op.name = "get_mut"  -> OpGetMut(ts, op.c, op.w)
+    [] op.name = "clear"    -> OpClear(ts)
+    [] op.name = "s_insert" -> SOpInsert(ts, cap, op.k)
+    [] op.name = "s_remove" -> SOpRemove(ts, op.c)
+    [] op.name = "s_clear"  -> SOpClear(ts)
+
+\* clone, then one operation on one of the two copies, then the non-survivor is dropped
+OpClone(ts, cap, then, on, survivor) ==
+  LET cl == CloneOf(ts)
+      r == ApplySub(IF on = "orig" THEN ts ELSE cl, cap, then)
+      origPost == IF on = "orig" THEN r.post ELSE ts
+      copyPost == IF on = "copy" THEN r.post ELSE cl
+      keep == IF survivor = "orig" THEN origPost ELSE copyPost
+      gone == IF survivor = "orig" THEN copyPost ELSE origPost
+  IN Res([cl |-> SeqMap(JEnt, cl), then |-> r.ret, other |-> SeqMap(JEnt, IF on = "orig" THEN cl ELSE ts)],
+         keep, r.dk \cup KTags(gone), r.dv \cup (VTags(gone) \ {0}))
+
+\* ---------------------------------------------------------------- serde --
+\* serialization.rs / set/serialization.rs: announce len(), emit the entries in slot
+\* order; the visitor builds a fresh container by a loop of insert (objects 40 + j)
+SerEntries(ts) == [j \in 1..Len(ts) |-> [k |-> [kt |-> 40 + j, c |-> ts[j].c, r |-> ts[j].r],
+                                          v |-> [vt |-> IF ts[j].vt = 0 THEN 0 ELSE 40 + j, v |-> ts[j].v]]]
+OpSerde(ts, m) ==
+  LET f == FoldInserts(<<>>, m, SerEntries(ts), 1, {}, {}) IN
+  Res([announced |-> Len(ts), emitted |-> Len(ts),
+       de |-> IF f.panic THEN <<>> ELSE [j \in 1..Len(f.post) |-> <<0, f.post[j].c, f.post[j].r, 0, f.post[j].v>>],
+       ok |-> ~f.panic, eq |-> ~f.panic /\ EqMaps(f.post, ts)], ts, {}, {})
+
 \* ------------------------------------------------------------ dispatch --
 Apply(ts, cap, op) ==
   CASE op.name = "insert"           -> OpInsert(ts, cap, op.k, op.v)
@@ -289,6 +328,8 @@ Apply(ts, cap, op) ==
     [] op.name = "s_from_iter"      -> SOpFromIter(cap, op.items)
     [] op.name = "s_from_array"     -> SOpFromIter(cap, op.items)
     [] op.name = "s_fmt"            -> OpFmt(ts)
+    [] op.name = "clone"            -> OpClone(ts, cap, op.then, op.on, op.survivor)
+    [] op.name = "serde"            -> OpSerde(ts, op.m)
 
 AltOf(ts, cap, op) ==
   IF op.name = "disjoint" THEN OpDisjointAlt(ts, op.ks, op.w, op.unchecked)
